@@ -388,7 +388,28 @@ def judge_consumer(world, h, relaxed):
         ok03 = _in(act, acc03, fe)
         ok05 = _in(act, acc05, fe)
         where = 'express'
-        if d_us and (not ok03 or (act[0] == 'timeout' and abs(a['t'] - max(dl, t_await)) > w_us)):
+        late_await = d_us and t_await > dl + w_us
+        if late_await:
+            # The caller starts to await only after the lifetime has run out.  What arrived in time is handed out (both
+            # front-ends, documented).  What arrives AFTER the deadline - before the late await, or in the 100 ms the current
+            # front-end then still waits - is handed out as well although the statement says timeout: recorded as the known
+            # finding C03:late-await (no timer runs before the first await); the bare 100 ms wait itself is documented.
+            grace = 100_000 if fe == 'v2' else 0
+            if act[0] == 'canceled' and any(t_await - w_us <= c_['t'] <= t_await + grace + w_us
+                                             for c_ in list(h.cancels.get(iid, [])) + list(h.shutdowns)):
+                continue        # the caller gave up, or the face went down, while it was (still) waiting
+            if not ok03 and act[0] in ('data', 'nack', 'invalid', 'canceled'):
+                x03, _x05, _lp, _n = _acceptable(h, fe, ex, op, iid, t_await + grace, t_await, w_us)
+                if _in(act, x03, fe):
+                    world.violate('C03', 'late-await', comp,
+                                  'canceled-after-deadline' if act[0] == 'canceled' else 'result-after-deadline',
+                                  f'Interest {iid} {_fmt_name(ex["name"])} expressed t={te}us, deadline t={dl}us, first awaited at '
+                                  f't={t_await}us: finished {_short(act)} at t={a["t"]}us because of an event (packet, shutdown) '
+                                  f'that came after the deadline')
+                    continue
+            if act[0] == 'timeout' and ('timeout',) in acc03 and abs(a['t'] - (t_await + grace)) <= w_us:
+                continue
+        if d_us and not late_await and (not ok03 or (act[0] == 'timeout' and abs(a['t'] - max(dl, t_await)) > w_us)):
             # does the outcome fit a lifetime that only starts when the caller awaits?
             dl2 = t_await + life_us
             b03, b05, _lp, _n = _acceptable(h, fe, ex, op, iid, dl2, t_await, w_us)
@@ -429,7 +450,11 @@ def judge_consumer(world, h, relaxed):
                               f'after malformed input, Interest {iid} finished {_short(act)}; acceptable '
                               f'{sorted(map(str, map(_short, acc03)))}')
         if not ok05:
-            if act[0] in ('data', 'invalid') and late_possible:
+            if act[0] in ('data', 'invalid') and late_possible and late_await and fe == 'v2':
+                world.violate('C03', 'late-await', comp, 'result-after-deadline',
+                              f'Interest {iid}: first awaited at t={t_await}us, after the deadline (t={dl}us); the validator finished '
+                              f'after the deadline too, yet its result {_short(act)} was handed out')
+            elif act[0] in ('data', 'invalid') and late_possible:
                 world.violate('C05', 'late-validator', comp, where,
                               f'Interest {iid}: the validator finished after the deadline (t={dl}us) yet its '
                               f'result {_short(act)} was returned at t={a["t"]} instead of a timeout')
@@ -456,7 +481,8 @@ def judge_consumer(world, h, relaxed):
             world.violate('C03', 'timeout-time', comp, where,
                           f'Interest {iid} timed out at t={a["t"]}us, deadline was t={dl}us')
     # leftovers
-    if h.final is not None and h.final['pit'] is not None and h.final['pit'] > h.abandoned:
+    # (also for Interests whose caller never got to await them: the lifetime timer cleans up after them)
+    if h.final is not None and h.final['pit'] is not None and h.final['pit'] > 0:
         world.violate('C03', 'leftover', fe, 'pending-table',
                       f'{h.final["pit"]} pending entr(ies) remain after every Interest finished '
                       f'and every deadline passed')
